@@ -48,23 +48,25 @@ pub struct DirectedStats {
 pub fn directed(enc: &dyn Fn(&[u8], &BTreeMap<String, u32>) -> Result<Encoded, EncodeError>, seed_tape: &[u8], max_runs: usize, stats: &mut DirectedStats) -> Result<Vec<Case>, String> {
     let mut out = Vec::new();
     let mut seen_sites: BTreeSet<String> = BTreeSet::new();
-    let mut work: Vec<(String, u32)> = Vec::new();
+    // (context that revealed the site, site, alternative): a site inside an array element or a conditional block only
+    // exists while the decision that revealed it (count >= 1, that branch) is held
+    let mut work: Vec<(BTreeMap<String, u32>, String, u32)> = Vec::new();
     let base_forced = BTreeMap::new();
-    let mut push_sites = |enc: &Encoded, seen: &mut BTreeSet<String>, work: &mut Vec<(String, u32)>| {
+    let mut push_sites = |enc: &Encoded, ctx: &BTreeMap<String, u32>, seen: &mut BTreeSet<String>, work: &mut Vec<(BTreeMap<String, u32>, String, u32)>| {
         for d in &enc.decisions {
             if d.arity == 0 {
                 continue;
             }
             if seen.insert(d.site.clone()) {
                 for a in alternatives(d.kind, d.arity) {
-                    work.push((d.site.clone(), a));
+                    work.push((ctx.clone(), d.site.clone(), a));
                 }
             }
         }
     };
     match enc(seed_tape, &base_forced) {
         Ok(enc) => {
-            push_sites(&enc, &mut seen_sites, &mut work);
+            push_sites(&enc, &base_forced, &mut seen_sites, &mut work);
             out.push(Case { enc, tape: seed_tape.to_vec(), forced: base_forced.clone() });
         }
         Err(EncodeError::Problem(p)) => return Err(p),
@@ -77,14 +79,14 @@ pub fn directed(enc: &dyn Fn(&[u8], &BTreeMap<String, u32>) -> Result<Encoded, E
             stats.truncated = true;
             break;
         }
-        let (site, alt) = work[i].clone();
+        let (ctx, site, alt) = work[i].clone();
         i += 1;
-        let mut forced = BTreeMap::new();
+        let mut forced = ctx;
         forced.insert(site, alt);
         stats.runs += 1;
         match enc(seed_tape, &forced) {
             Ok(enc) => {
-                push_sites(&enc, &mut seen_sites, &mut work);
+                push_sites(&enc, &forced, &mut seen_sites, &mut work);
                 out.push(Case { enc, tape: seed_tape.to_vec(), forced });
             }
             Err(EncodeError::Problem(p)) => return Err(p),
